@@ -369,3 +369,48 @@ func ZZ_C05_A2_validator_messages_authorized_for_operator_and_owner_only() {
 	zzAssert("A2.val.stake-signers-resolved", errS == nil && len(whoS) == 2 && bytes.Equal(whoS[0], zzAddr(5)) && bytes.Equal(whoS[1], zzAddr(2)))
 	zzReach("A2.val.done")
 }
+
+// C05 / A2 for MessageStake: both the new validator's own address (derived from PublicKey) and the
+// output address may sign a stake - two free message fields - so the handler must debit the VERIFIED
+// signer (what PopulateSpecialMessageFields wrote), never an account merely named in the message.
+// Three funded accounts; operator key, output address and signer each range over them; the signer
+// is one of the authorized addresses (what the A1 gate guarantees).
+//
+//zz:harness mode=int unwind=60 maxpaths=40000 timebudget=900 replay=model
+//zz:reach A2.stake.executed A2.stake.rejected
+func ZZ_C05_A2_stake_debits_only_the_verified_signer() {
+	zzRealBLS = true
+	sm, _ := zzFSM(5)
+	zzWorld3(sm)
+	op, outp, sg := zzConcrete(zzInt("operator"), 0, 2), zzConcrete(zzInt("output"), 0, 2), zzConcrete(zzInt("signer"), 0, 2)
+	msg := &MessageStake{PublicKey: zzAddr(op), Amount: zzN64("amount"), Committees: []uint64{1}, OutputAddress: zzAddr(outp), Delegate: zzBool("delegate"), Signer: zzAddr(7)}
+	if !msg.Delegate {
+		msg.NetAddress = "tcp://x"
+	}
+	auth, ok := zzAuthorizedIdx(sm, msg)
+	zzAssert("A2.stake.signers-resolved", ok)
+	if !ok {
+		return
+	}
+	for i := 0; i < 3; i++ {
+		zzAssert("A2.stake.exactly-operator-and-output-may-sign", auth[i] == (i == op || i == outp))
+	}
+	if !auth[sg] {
+		return // refused by the signature gate (A1)
+	}
+	sm.PopulateSpecialMessageFields(&lib.Transaction{MessageType: MessageStakeName}, crypto.NewAddress(zzAddr(sg)), msg)
+	before := zzBalances(sm)
+	if sm.HandleMessageStake(msg) != nil {
+		zzReach("A2.stake.rejected")
+		return
+	}
+	zzReach("A2.stake.executed")
+	after := zzBalances(sm)
+	for i := 0; i < 3; i++ {
+		if i == sg {
+			zzAssert("A2.stake.signer-pays-exactly-the-stake", after[i] <= before[i] && before[i]-after[i] == msg.Amount)
+		} else {
+			zzAssert("A2.stake.account-that-did-not-sign-is-untouched", after[i] == before[i])
+		}
+	}
+}
